@@ -85,6 +85,7 @@ _QUICK_FLOORS = {
     'in_fail_pos:inside': 1500, 'in_fail_pos:empty-text': 350,
     'in_text:unicode-breaks': 5000, 'in_text:long-line': 250, 'in_text:empty': 350,
     'in_budget_decisive': 19000, 'in_preflight_counting': 7000, 'in_ops_decisive': 6500,
+    'in_model_building_executions': 1500, 'in_grammars:typed-builtin': 150,
     'in_preflight_with_call_clock': 7000, 'in_buffer_with_call_clock': 5000, 'in_text:brace-words': 500,
     'gr_texts': 3000, 'gr_rejected_failure_judged': 1000, 'gr_compiled': 380, 'gr_templates': 160,
     'gr_shipped': 240, 'gr_mut:char': 750, 'gr_mut:token': 750, 'gr_followup_parses': 750,
@@ -115,6 +116,9 @@ def run_shard(desc, acc):
 
 # ======================================================================================= inputs
 METAS = ('int', 'uint', 'float', 'bool', 'name')
+# builtin TYPES a rule may name as its type (docs: "builtin type names convert the value").  bytes/bytearray are left out:
+# they allocate as many bytes as an integer value says (@int on '99999999999' -> MemoryError is not what this looks at)
+BUILTIN_TYPES = ('int', 'float', 'str', 'bool', 'list', 'tuple', 'set', 'frozenset', 'dict', 'complex')
 
 
 def _templates(k):
@@ -195,6 +199,18 @@ def input_grammar(rng, i):
     g = G.gen_grammar(rng, F, max_rules=5 if rng.random() < 0.3 else 3, pats=list(G.PATS))
     p_meta = rng.choice([0.0, 0.15, 0.3, 0.5])
     rules = [L.Rule(r.name, inject(rng, r.body, p_meta, 0.06)) for r in g.rules]
+    if i % 10 == 9:
+        # rules typed with a builtin type (number::int), parsed with model building: the conversion sees whatever text
+        # the rule matched - a text the builtin rejects is bad INPUT and must surface as a parse failure
+        trng = random.Random(h64('C08', 'typed', L.grammar_text(L.Grammar(rules, directives))))
+        k = trng.randrange(len(rules))
+        typed = []
+        for j, r in enumerate(rules):
+            if j == k or trng.random() < 0.4:
+                typed.append(L.Rule(r.name, r.body, r.decorators, (trng.choice(BUILTIN_TYPES),), r.kwparams, r.base))
+            else:
+                typed.append(r)
+        return L.Grammar(typed, directives), 'typed-builtin'
     return L.Grammar(rules, directives), 'random'
 
 
@@ -333,6 +349,12 @@ class InCase:
         kw = {'start': 'start', 'heart': heart}
         if variant['parseinfo']:
             kw['parseinfo'] = True
+        if variant.get('builder'):
+            if variant['parser'] == 'api':
+                kw['asmodel'] = True
+            else:
+                from tatsu.semantics import ModelBuilderSemantics
+                kw['semantics'] = ModelBuilderSemantics()
         st = {'heart': heart, 'decisive': decisive, 'clock': None, 'ops_decisive': None, 'stall': None}
         try:
             if variant.get('counting'):
@@ -435,7 +457,7 @@ def hang_mechanism(case, text, variant, sig):
 
 def variant_name(v):
     return (f"{v['parser']},{v['impl']}{'(counting)' if v.get('counting') else ''},"
-            f"parseinfo={'on' if v['parseinfo'] else 'off'}")
+            f"parseinfo={'on' if v['parseinfo'] else 'off'}{',model-building' if v.get('builder') else ''}")
 
 
 def check_input(acc, case, text, variant, classes, origin, shrink=True):
@@ -566,6 +588,9 @@ def run_inputs(desc, acc):
                 classes = set(classes) | {'unicode-breaks'}
             # pre-flight through the counting input: the logical clock that also sees loops without rule calls
             pre = {'impl': 'TextLines', 'parseinfo': (i + j) % 2 == 0, 'parser': 'model', 'counting': True}
+            builder = label == 'typed-builtin'
+            if builder:
+                pre['builder'] = True
             cls, problems = check_input(acc, case, text, pre, classes, origin)
             if cls in ('Watchdog', 'Stalled', 'StepsExceeded', 'StepsExceeded(cap)', 'HeartDied', 'HeartDied(cap)'):
                 acc.count('in_texts_not_run_further_after_budget')
@@ -582,7 +607,12 @@ def run_inputs(desc, acc):
             if route == 'text' and j < 3:
                 vs.append(dict(VARIANTS[(i + 2 * j) % 6], parser='api'))
             for v in vs:
+                if builder:
+                    v = dict(v, builder=True)
+                    acc.count('in_model_building_executions')
                 cls, _p = check_input(acc, case, text, v, classes, origin)
+                if builder and cls not in ('ok',) and _p == [] and cls not in ('Watchdog', 'Stalled'):
+                    acc.count('in_model_building_failures_judged')
                 if cls in ('Watchdog', 'Stalled'):
                     stuck += 1
             if stuck >= 2:
